@@ -261,7 +261,9 @@ func scenarioProxySched(c *vrun.Ctx) {
 					c.Violation(p.Prop+"/"+p.Name+"/broken-body", "range client: "+overwriter.Err, x)
 				}
 			}
-			if p.Prop == "C05" && p.Outcome == "cacheable" && p.Cancel == 0 && p.Evictor == "" && p.Overwrite == "" {
+			// (also with a client that hangs up: "a client that disconnects never changes what the others
+			// receive", and the one fetch is still the only one)
+			if p.Prop == "C05" && p.Outcome == "cacheable" && p.Evictor == "" && p.Overwrite == "" {
 				want := 1
 				if p.Start == "fresh" {
 					want = 0
